@@ -230,6 +230,26 @@ func extStringsContains(fr *frame, args []value) value {
 			return strings.Contains(ss, fs)
 		}
 	}
+	// a single non-identifier byte: only literal parts (and String atoms) can contain it
+	if sub, ok := args[1].(string); ok && len(sub) == 1 && !identBodyRe.MatchString(sub) && sub != "-" {
+		var terms []string
+		for _, p := range partsOf(args[0]) {
+			switch p.Kind {
+			case PLit:
+				if strings.Contains(p.Lit, sub) {
+					return true
+				}
+			case PCode, PInt:
+			case PAtom:
+				if !fr.i.ctx.AtomExcludes(p.Lit, sub) {
+					terms = append(terms, fmt.Sprintf("(str.contains %s %s)", p.Lit, smtStrLit(sub)))
+				}
+			default:
+				panic(Inconclusive{"strings.Contains over symbolic characters"})
+			}
+		}
+		return mkBool(orTerm(terms...))
+	}
 	return SymBool{T: fmt.Sprintf("(str.contains %s %s)", StrTerm(args[0]), StrTerm(args[1]))}
 }
 
